@@ -2,42 +2,79 @@
 (***************************************************************************)
 (* Validation of recorded histories (one shared Preloads object, several   *)
 (* successive inversions, reads in any order) against Preloads.tla.        *)
+(* A Preloads record carries the filled slots and the make-up of the       *)
+(* inversions (formalism, numbers of mappers / function lists, own         *)
+(* operated matrices), whether the reference inversion delivered the       *)
+(* contents (raised) and which filled slots got content (present).         *)
 (* A Read record carries the alpha-abstraction of the value returned by    *)
 (* the real inversion: k = multiplicity such that value = fresh + k*H for  *)
 (* curvature-like quantities, 0 = equal to the fresh computation, -99 =    *)
-(* neither; pre_k / pre_ok = the same abstraction of the preloaded         *)
-(* buffers after the read; cached = cached curvature names observed.       *)
+(* neither; pre_k / pre_ok = the same abstraction of the preloaded primary *)
+(* buffers after the read; sec_changed = secondary slots whose buffers     *)
+(* (arrays, values of dictionaries) changed during this read; cached =     *)
+(* cached curvature names observed.                                        *)
 (***************************************************************************)
 EXTENDS Preloads, IOUtils
 
 Trace == JsonDeserialize(IOEnv.TRACE_FILE)
-VARIABLE i
+VARIABLES i,      \* index of the next record
+          seen    \* secondary slots whose buffers were OBSERVED to change since the Preloads record
 
 Cl(nm, ok) == IF ok THEN << >> ELSE << nm >>
 ToSetS(s) == { s[k] : k \in DOMAIN s }
 
-Sig(r) == r.q \o ":" \o r.formalism \o ":" \o (IF r.single THEN "single-object" ELSE "several-objects")
-          \o ":run" \o (IF run <= 1 THEN "1" ELSE "N")
+RECURSIVE JoinSec(_, _)
+JoinSec(S, j) == IF j > Len(SecondarySeq) THEN ""
+                 ELSE (IF SecondarySeq[j] \in S THEN "+" \o SecondarySeq[j] ELSE "") \o JoinSec(S, j + 1)
 
-TraceInit == /\ i = 1 /\ filled = {} /\ preK = 0 /\ run = 0 /\ cache = NoCache /\ alias = FALSE /\ nreads = 0
+MakeUpClass(m) == IF Single(m) THEN "single-object" ELSE "several-objects"
+
+\* input class of a rejected read: quantity, formalism, one / several objects, first / later run, and the secondary slots that
+\* flow into the quantity for this make-up (nothing is appended when none does: the signatures of the primary slots are unchanged)
+Sig(r) == LET via == Feeds(r.q, mk, EF) \cap SecondarySlots
+          IN r.q \o ":" \o r.formalism \o ":" \o MakeUpClass(mk) \o ":run" \o (IF run <= 1 THEN "1" ELSE "N")
+             \o (IF via = {} THEN "" ELSE ":via" \o JoinSec(via, 1))
+
+\* a secondary buffer changed.  The code-shaped formulation (CopySecondary = FALSE) says where the pinned code writes the parts of
+\* the other linear objects next to a preloaded array: the specific signature is given only when the observation is exactly that
+\* (first write into that buffer, by a read that embeds, value still right); anything else keeps a generic signature.
+SecSig(r, s) ==
+  IF s \in Embeds(r.q, mk, EF) /\ s \notin seen /\ WT(mk) /\ r.k = 0
+  THEN "in-place-embedding:" \o s \o ":w_tilde:" \o (IF mk.nf > 0 THEN "function-lists-present" ELSE "several-mappers")
+  ELSE "buffer-changed:" \o s \o ":" \o Sig(r)
+
+TraceInit == /\ i = 1 /\ seen = {} /\ filled = {} /\ mk = [f |-> "mapping", nm |-> 1, nf |-> 0, ov |-> FALSE] /\ preK = 0 /\ dirty = {}
+             /\ run = 0 /\ cache = NoCache /\ alias = FALSE /\ nreads = 0
              /\ out = [q |-> "none", k |-> 0] /\ hist = << >>
 
 StepPreloads(r) ==
-  /\ filled' = ToSetS(r.filled) /\ preK' = 0 /\ run' = 0 /\ cache' = NoCache /\ alias' = FALSE /\ nreads' = 0
-  /\ out' = [q |-> "none", k |-> 0] /\ UNCHANGED hist
+  /\ filled' = ToSetS(r.filled) /\ mk' = [f |-> r.mk.f, nm |-> r.mk.nm, nf |-> r.mk.nf, ov |-> r.mk.ov]
+  /\ preK' = 0 /\ dirty' = {} /\ run' = 0 /\ cache' = NoCache /\ alias' = FALSE /\ nreads' = 0
+  /\ out' = [q |-> "none", k |-> 0] /\ seen' = {} /\ UNCHANGED hist
+  /\ LET bad == Cl("known-slots-and-make-up", ToSetS(r.filled) \subseteq AllSlots /\ mk' \in AllMakeUps)
+                \o Cl("reference-inversion-delivers-the-slot-contents", ~ r.raised)
+     IN IF bad = << >> THEN TRUE
+        ELSE PrintT(ToJson([k |-> "reject", i |-> i, id |-> r.id, clauses |-> bad,
+                            sig |-> "fill:" \o r.ref \o "-reference:" \o MakeUpClass(mk') \o ":"
+                                    \o (IF mk'.nf > 0 /\ mk'.nm > 0 THEN "mappers-and-function-lists"
+                                        ELSE IF mk'.nm > 0 THEN "mappers-only" ELSE "function-lists-only"),
+                            want |-> [present |-> Eff(filled', mk')]]))
+  /\ \* model drift (informational): which filled slots got content from the reference inversion
+     IF r.raised \/ ToSetS(r.present) = Eff(filled', mk') THEN TRUE
+     ELSE PrintT(ToJson([k |-> "drift", i |-> i, id |-> r.id, model |-> Eff(filled', mk'), observed |-> r.present]))
 
 StepNew(r) ==
   /\ run' = run + 1 /\ cache' = NoCache /\ alias' = FALSE /\ nreads' = 0 /\ out' = [q |-> "new", k |-> 0]
-  /\ UNCHANGED << filled, preK, hist >>
+  /\ UNCHANGED << filled, mk, preK, dirty, hist, seen >>
 
-\* the model step is the module's own Read, with the bounds lifted; then the logged observation is judged
+\* the model step is the module's own read, with the bounds lifted; then the logged observation is judged
 StepRead(r) ==
   /\ CASE r.q = "curvature_matrix" -> ReadCurvature
-       [] r.q \in {"curvature_reg_matrix", "reconstruction", "mapped_reconstructed_data", "regularization_term",
-                   "log_det_curvature_reg_matrix_term"} -> ReadNeedsReg(r.q)
+       [] r.q \in RegQs -> ReadNeedsReg(r.q)
+       [] r.q = "data_vector" -> ReadDataVector
        [] OTHER -> ReadPlain(r.q)
-  /\ nreads' = nreads + 1
-  /\ UNCHANGED << filled, run, hist >>
+  /\ nreads' = nreads + 1 /\ seen' = seen \cup ToSetS(r.sec_changed)
+  /\ UNCHANGED << filled, mk, run, hist >>
   /\ LET bad == Cl("output-equals-fresh-computation", r.k = 0)
                 \o Cl("preloaded-curvature-matrix-unchanged", r.pre_k = 0)
                 \o Cl("other-preloaded-buffers-unchanged", r.pre_ok)
@@ -45,6 +82,10 @@ StepRead(r) ==
      IN IF bad = << >> THEN TRUE
         ELSE PrintT(ToJson([k |-> "reject", i |-> i, id |-> r.id, clauses |-> bad, sig |-> Sig(r),
                             want |-> [model_k |-> out'.k, model_preK |-> preK']]))
+  /\ \* one verdict per secondary slot whose buffer changed (a known finding on one slot cannot hide another slot)
+     \A s \in ToSetS(r.sec_changed) :
+        PrintT(ToJson([k |-> "reject", i |-> i, id |-> r.id, clauses |-> << "secondary-preloaded-buffers-unchanged" >>,
+                       sig |-> SecSig(r, s), slot |-> s, want |-> [changed_before |-> seen]]))
   /\ \* model drift (informational): the model's view of the cached curvature buffers vs the observed __dict__
      LET mc == DOMAIN cache' \cap {"curvature_matrix", "curvature_reg_matrix"}
      IN IF mc = ToSetS(r.cached) THEN TRUE
@@ -58,6 +99,6 @@ TraceNext ==
          [] OTHER -> StepRead(r)
   /\ i' = i + 1
 
-TraceSpec == TraceInit /\ [][TraceNext]_<< vars, i >>
+TraceSpec == TraceInit /\ [][TraceNext]_<< vars, i, seen >>
 TraceAccepted == TLCGet("stats").diameter - 1 = Len(Trace)
 =============================================================================
